@@ -15,6 +15,8 @@ def units(tier):
             us.append(Unit(M.MangleFile, {'n': n, 'level': level}))
             if n <= 3:
                 us.append(Unit(M.MangleDir, {'n': n, 'level': level}))
+    if tier == 'quick':
+        us.append(Unit(M.MangleFile, {'n': 5, 'level': 3}))      # the shortest name with a four-character extension (K53)
     for name in ('x' * 30 + '.tx2', 'y' * 40 + '.t', 'z' * 28 + '.abc', 'w' * 27 + '.abc', 'v' * 35, 'u' * 29 + '.toolong'):
         for level in (2, 3):
             us.append(Unit(M.MangleFileLong, {'name': name, 'level': level}))
